@@ -412,7 +412,7 @@ func explore(r *ev.Run, j job, pool *ccm.Worlds, epochBuilt *int64) mc.Stats {
 	m, n, vals := j.m, j.n, j.vals
 	epochModes := []string{}
 	// quick tier: epoch changes for vote/ripple/fee/sig at N = 4 and for AddSignature at N = 5;
-	// thorough: every mechanism and N (join3 for N <= 6)
+	// thorough: every mechanism and N (join3 for N <= 5)
 	if r.Thorough() || (n == 4 && (m.name == "vote" || m.name == "fee" || m.name == "sig")) || (m.name == "sig" && n == 5) {
 		epochModes = append(epochModes, "join")
 		if n <= 5 && (r.Thorough() || n == 4) {
@@ -427,7 +427,7 @@ func explore(r *ev.Run, j job, pool *ccm.Worlds, epochBuilt *int64) mc.Stats {
 	}
 	// in-view status changes (quitNode / approved candidate / later commitDpos): quick N = 5, 6; thorough N >= 4
 	// quick: vote/fee/sig at N = 5, at most one quitNode, quit and candidate never combined on one path;
-	// thorough: every mechanism at N = 5 with up to two quits, vote/fee/sig also at N = 4, 6, 7
+	// thorough: vote/fee/sig at N = 5 with up to two quits, and at N = 4, 6, 7 with one
 	core := m.name == "vote" || m.name == "fee" || m.name == "sig"
 	inView := (n == 5 && core && (m.name != "fee" || r.Thorough())) || (r.Thorough() && core && (n == 4 || n == 6 || n == 7))
 	maxQuits, combine := 1, false
